@@ -43,4 +43,79 @@ theorem C07_hashed_counterexample :
       iterate perm .hashed s₁ xs ≠ iterate perm .hashed s₂ xs :=
   ⟨fun s xs => if s = 0 then xs else xs.reverse, 0, 1, [1, 2], by decide⟩
 
+/-- GENERALISATION (session 4): a container need not be ordered as long as every use of its iteration is insensitive to the
+    order — the precise condition under which a `HashSet` used for membership tests, counting or an order-free fold leaves the
+    expansion a function of the tokens.  Each iterated container is either ordered, or the consumer `step` gives the same
+    result on every rearrangement of its contents (and the hasher only ever rearranges: `hperm`). -/
+theorem C07_expansion_function_of_tokens_general {α β : Type} (perm : Nat → List α → List α)
+    (hperm : ∀ s xs, (perm s xs).Perm xs) (step : β → List α → β)
+    (cs : List (ContainerKind × List α))
+    (h : ∀ c ∈ cs, c.1 = .ordered ∨ (∀ acc ys, ys.Perm c.2 → step acc ys = step acc c.2))
+    (s₁ s₂ : Nat) (init : β) :
+    runWith perm s₁ step cs init = runWith perm s₂ step cs init := by
+  induction cs generalizing init with
+  | nil => rfl
+  | cons c rest ih =>
+    obtain ⟨k, xs⟩ := c
+    have hrest : ∀ c ∈ rest, c.1 = .ordered ∨ (∀ acc ys, ys.Perm c.2 → step acc ys = step acc c.2) :=
+      fun c hc => h c (by simp [hc])
+    have hstep : step init (iterate perm k s₁ xs) = step init (iterate perm k s₂ xs) := by
+      cases h (k, xs) (by simp) with
+      | inl hk => simp only at hk; subst hk; rfl
+      | inr hins =>
+        cases k with
+        | ordered => rfl
+        | hashed =>
+          simp only [iterate]
+          rw [hins init _ (hperm s₁ xs), hins init _ (hperm s₂ xs)]
+    simp only [runWith]
+    rw [hstep]
+    exact ih hrest _
+
+/-- the ordered-only theorem is the special case in which no container is hashed -/
+theorem C07_expansion_is_function_of_tokens_of_general {α β : Type} (perm : Nat → List α → List α)
+    (hperm : ∀ s xs, (perm s xs).Perm xs) (step : β → List α → β)
+    (cs : List (ContainerKind × List α)) (h : ∀ c ∈ cs, c.1 = .ordered) (s₁ s₂ : Nat) (init : β) :
+    runWith perm s₁ step cs init = runWith perm s₂ step cs init :=
+  C07_expansion_function_of_tokens_general perm hperm step cs (fun c hc => Or.inl (h c hc)) s₁ s₂ init
+
+/-- order-insensitive consumers alone suffice, whatever the container kinds (membership tests, `len`, commutative folds) -/
+theorem C07_order_insensitive_uses_are_deterministic {α β : Type} (perm : Nat → List α → List α)
+    (hperm : ∀ s xs, (perm s xs).Perm xs) (step : β → List α → β)
+    (hstep : ∀ acc xs ys, xs.Perm ys → step acc xs = step acc ys)
+    (cs : List (ContainerKind × List α)) (s₁ s₂ : Nat) (init : β) :
+    runWith perm s₁ step cs init = runWith perm s₂ step cs init :=
+  C07_expansion_function_of_tokens_general perm hperm step cs
+    (fun c _ => Or.inr (fun acc ys hys => hstep acc ys c.2 hys)) s₁ s₂ init
+
+/-- membership is such a consumer: a set consulted only through `contains` never leaks its iteration order -/
+theorem C07_membership_is_order_insensitive (a : Nat) (xs ys : List Nat) (h : xs.Perm ys) :
+    xs.contains a = ys.contains a := by
+  simp only [List.contains_eq_mem, h.mem_iff]
+
+/-- the disjunction is exact: a hasher that only rearranges (a genuine permutation) still changes the result of an
+    order-SENSITIVE consumer of a hashed container — e.g. emitting one generated item per element -/
+theorem C07_order_sensitive_consumer_counterexample :
+    ∃ (perm : Nat → List Nat → List Nat), (∀ s xs, (perm s xs).Perm xs) ∧
+      ∃ (s₁ s₂ : Nat) (xs : List Nat),
+        runWith perm s₁ (fun acc ys => acc ++ ys) [(.hashed, xs)] [] ≠
+        runWith perm s₂ (fun acc ys => acc ++ ys) [(.hashed, xs)] [] := by
+  refine ⟨fun s xs => if s = 0 then xs else xs.reverse, ?_, 0, 1, [1, 2], by decide⟩
+  intro s xs
+  by_cases hs : s = 0
+  · simp [hs]
+  · simp only [hs, if_false]; exact List.reverse_perm xs
+
+/-- non-vacuity of the general theorem: a run that iterates one ordered list (emitting it) and one hashed set (only asking
+    for membership of `2`) meets its hypotheses, for the reversing hasher above -/
+example :
+    let step : List Nat → List Nat → List Nat := fun acc ys => if ys.contains 2 then acc ++ [2] else acc
+    ∀ c ∈ [(ContainerKind.hashed, [1, 2, 3])],
+      c.1 = .ordered ∨ (∀ acc ys, ys.Perm c.2 → step acc ys = step acc c.2) := by
+  intro step c hc
+  simp only [List.mem_singleton] at hc
+  subst hc
+  refine Or.inr (fun acc ys hys => ?_)
+  simp only [step, C07_membership_is_order_insensitive 2 ys [1, 2, 3] hys]
+
 end DI
